@@ -517,8 +517,7 @@ def main(chk: Check) -> None:
         chk.broken("translator", "C01/Gen.v", str(e))
     chk.forbidden_scan()
     if chk.coq_make(["C01/Proofs.vo", "C01/Extract.vo"]):
-        if chk.audit_props("C01/Props.v") and chk.tier == "thorough":
-            chk.coqchk(["Wz.C01.Props"])
+        chk.audit_props("C01/Props.v")
     else:
         chk.cov["obligations"] += 1
     chk.trusted += [
